@@ -39,7 +39,36 @@ def plan(tier, seed, batch):
     return [{"index": batch * 100000 + i, "seed": seed, "tier": tier} for i in range(n)]
 
 
-def gen_text(rw, profile=None, length=None, pseudo=True):
+COUNTED = ["TIMESTAMP", "GAS", "BLOCKHASH", "MLOAD", "SLOAD", "KECCAK256", "RETURNDATASIZE", "SELFBALANCE", "NUMBER"]
+
+
+def counter_bait(rw, target=False):
+    """Blocks that drive the front-end's per-process counters and name tables: many occurrences of the instructions it numbers
+    (timestamp0, timestamp1, ... mload0 ...), and the same commutative operation computed twice with swapped operands."""
+    items = []
+    h = 3
+    kind = rw.choice(["count", "count", "comm", "mix"])
+    if kind in ("count", "mix"):
+        op = rw.choice(COUNTED)
+        for _ in range(rw.choice([2, 3]) if target else rw.choice([4, 8, 11, 14])):
+            if op in ("BLOCKHASH", "MLOAD", "SLOAD"):
+                items += [("DUP%d" % rw.randrange(1, h + 1), None), (op, None)]
+            elif op == "KECCAK256":
+                items += [("DUP2", None), ("DUP2", None), (op, None)]
+            else:
+                items += [(op, None)]
+            items += rw.choice([[("POP", None)], [("DUP2", None), ("LT", None), ("POP", None)], [("DUP2", None), ("SSTORE", None)]])
+    if kind in ("comm", "mix"):
+        cop = rw.choice(["ADD", "MUL", "AND", "OR", "XOR", "EQ"])
+        items += [("DUP2", None), ("DUP2", None), (cop, None), ("SWAP2", None), (cop, None)]
+        items += rw.choice([[("SWAP1", None), ("SSTORE", None)], [("DUP1", None), ("MSTORE", None)], [("SWAP2", None)]])
+        h = 1
+    return items
+
+
+def gen_text(rw, profile=None, length=None, pseudo=True, target=False):
+    if rw.random() < 0.22:
+        return AJ.items_to_text(counter_bait(rw, target), 2)
     if rw.random() < 0.25:
         b = corpus.sample_blocks(rw, 1, max_len=length or 30)[0]
         b = [it for it in b if it[0] not in ("tag", "JUMPDEST")]
@@ -59,7 +88,7 @@ def build(spec):
     n = rh.choice([1, 1, 2, 3, 5, 8, 12])
     hist = [gen_text(rh, profile=rh.choice(["rules", "nasty", "memory", "split", "plain", None]),
                      length=rh.choice([4, 8, 12]) if small else None) for _ in range(n)]
-    target = gen_text(rw, length=rw.choice([4, 6, 8]) if small else None)
+    target = gen_text(rw, length=rw.choice([4, 6, 8]) if small else None, target=True)
     op = {"argv": flags, "history": hist, "block": target, "env": {"tmp_name": "t"}, "desc": desc, "cpu_s": 120}
     if small:
         op["peer_plan"] = [{"kind": "optimal"}]
